@@ -66,12 +66,14 @@ def gen_config(rng, profile="any", tier="quick"):
     start = d0 * DAY + stod
     end = d1 * DAY + END_TOD
     wd = rng.choice(cal.WEEKDAYS)
+    if rng.random() < 0.2:
+        wd = wd.lower() if rng.random() < 0.7 else wd.capitalize()
     long_only = rng.random() < 0.5
     cfg = {
         "start": start, "end": end, "rebalance": reb, "weekday": wd, "long_only": long_only,
-        "cash_buffer": rng.choice([0.0, 0.01, 0.05, 0.05, 0.1, 0.25, 0.5]),
-        "leverage": rng.choice([0.5, 1.0, 1.0, 1.5, 2.0, 3.0]),
-        "initial_cash": rng.choice([1e3, 1e4, 1e5, 1e6, 1e6, 1e7, 123456.78, 98765.4321]),
+        "cash_buffer": rng.choice([0.0, 0, 0.01, 0.05, 0.05, 0.1, 0.25, 0.5]),
+        "leverage": rng.choice([0.5, 1.0, 1, 1.5, 2.0, 2, 3.0]),
+        "initial_cash": rng.choice([1e3, 1e4, 1e5, 1e6, 1000000, 1e7, 123456.78, 98765.4321]),
         "fee": ({"kind": "zero"} if rng.random() < 0.4 else
                 {"kind": "pct", "c": rng.choice([0.0, 1e-4, 1e-3, 2.5e-3, 0.01]),
                  "t": rng.choice([0.0, 0.0, 5e-4, 5e-3])}),
